@@ -121,3 +121,9 @@ package rest
 //@   ghost at after SetUp#0: su = true
 //@   call newEngine#0: assert su
 //@   loop 0: invariant true
+
+// C09 a request no route matches is answered by the configured not-found handler or, without one, by net/http's 404 handler -
+// never by a nil handler (which the chain would replace by the process-wide default mux)
+//@ func (ng *engine) notFoundHandler closure 0
+//@   property C09
+//@   call Then#*: assert arg0 != nil
